@@ -14,6 +14,7 @@
 //! by a fresh `TSigVerifier` unless the reference accepts it too. No panic on either side.
 
 mod clientpath;
+mod shapes;
 
 use std::collections::HashMap;
 
@@ -880,7 +881,7 @@ fn run_reply_mutants(c: &Case, reply: &[u8], req_mac: &[u8], l: &mut Local) {
 /// transport signs the request itself; for every recipe the real server answers exactly those
 /// bytes and the tampered reply is delivered from the server's address. The caller may get
 /// `Ok(response)` only if the reference verifier accepts the delivered bytes.
-fn run_client_path(w: &mut Worker, kind: Kind, alg: Alg, fudge: u16, path: &str, l: &mut Local) {
+fn run_client_path(w: &mut Worker, kind: Kind, alg: Alg, fudge: u16, path: &str, reply_shape: Option<&shapes::Shape>, l: &mut Local) {
     let handle = w.rt.handle().clone();
     let _guard = handle.enter();
     vsim::set_unix(T0);
@@ -889,13 +890,28 @@ fn run_client_path(w: &mut Worker, kind: Kind, alg: Alg, fudge: u16, path: &str,
     let key = Key::new("k1.", alg, vupd::KEY1);
     let kname = if kind.is_update() { "update" } else { "axfr" };
     let case = |class: &str, request: &[u8], reply: &[u8]| {
-        json!({"client_path": path, "kind": kind.name(), "alg": alg_name(alg), "fudge": fudge, "time_signed": T0, "reply_mutation": class,
-               "request_hex": hex::enc(request), "delivered_reply_hex": hex::enc(reply)})
+        let mut j = json!({"client_path": path, "kind": kind.name(), "alg": alg_name(alg), "fudge": fudge, "time_signed": T0, "reply_mutation": class,
+               "request_hex": hex::enc(request), "delivered_reply_hex": hex::enc(reply)});
+        if let Some(sh) = reply_shape {
+            j["reply_signed_by_reference_in_shape"] = json!(sh.label());
+            j["shape_other_len"] = json!(sh.other_len);
+            j["shape_error"] = json!(sh.error);
+            j["shape_oid_differs"] = json!(sh.oid_differs);
+            j["shape_fudge"] = json!(sh.fudge);
+            j["shape_name_style"] = json!(sh.name_style);
+        }
+        j
     };
     // one honest exchange: the transport's own signed request, answered by the real server
     let exchange = |w: &mut Worker, cp: &mut clientpath::ClientPath| -> Result<(Vec<u8>, Vec<u8>), String> {
         vsim::set_unix(T0);
         let request = cp.send(unsigned_message(kind))?;
+        if let Some(sh) = reply_shape {
+            // the reply is signed by the reference signer in that shape (e.g. a BADTIME reply with
+            // 6 octets of Other Data, which hickory's server never produces)
+            let mac = rt::split(&request).map(|s| s.tsig.mac).map_err(|e| format!("{e:?}"))?;
+            return Ok((request.clone(), shapes::ref_reply(&request, alg, sh, &mac, false)));
+        }
         let obs = run_request(w, 0, alg, 2, T0, &request);
         if let Some((m, _)) = obs.panic {
             return Err(format!("server panic: {m}"));
@@ -941,8 +957,14 @@ fn run_client_path(w: &mut Worker, kind: Kind, alg: Alg, fudge: u16, path: &str,
             ),
             Ok(clientpath::Delivered::Ok) => l.outcome(&format!("via-{path}:delivered-and-reference-accepts")),
             Ok(d) => {
-                if class == "identity" {
-                    l.violation(&format!("honest-reply-not-accepted-via-{path}"), &format!("the genuine signed reply did not reach the caller as Ok: {d:?}"), || case(&class, &request, &bytes));
+                if class == "identity" && reply_shape.map(|s| s.fudge == 0).unwrap_or(false) {
+                    l.outcome(&format!("via-{path}:not-delivered"));
+                } else if class == "identity" {
+                    let key = match reply_shape {
+                        Some(sh) => format!("reference-signed-reply-not-accepted-via-{path}:{}", sh.dims()),
+                        None => format!("honest-reply-not-accepted-via-{path}"),
+                    };
+                    l.violation(&key, &format!("the genuine signed reply did not reach the caller as Ok: {d:?}"), || case(&class, &request, &bytes));
                 } else if want.is_ok() {
                     l.outcome(&format!("via-{path}:not-delivered-although-reference-accepts(allowed)"));
                 } else {
@@ -1035,7 +1057,13 @@ fn main() {
         if let Some(path) = case["client_path"].as_str() {
             // the whole reply family of that honest exchange through that transport
             let (kind, alg, fudge) = (Kind::from_name(case["kind"].as_str().unwrap_or("")), alg_from(case["alg"].as_str().unwrap_or("")), case["fudge"].as_u64().unwrap_or(300) as u16);
-            ctx.with_local(|l| run_client_path(&mut w, kind, alg, fudge, path, l));
+            let sh = if case["shape_other_len"].is_u64() { Some(shapes::shape_from_json(&case)) } else { None };
+            ctx.with_local(|l| run_client_path(&mut w, kind, alg, fudge, path, sh.as_ref(), l));
+            ctx.finish(false);
+        }
+        if case["shape_family"].is_string() {
+            let (kind, alg, sh) = (Kind::from_name(case["kind"].as_str().unwrap_or("")), alg_from(case["alg"].as_str().unwrap_or("")), shapes::shape_from_json(&case));
+            ctx.with_local(|l| shapes::run_shape(&mut w, kind, alg, &sh, l));
             ctx.finish(false);
         }
         let c = Case::from_json(&case);
@@ -1086,7 +1114,14 @@ fn main() {
          (TSIG owner compressed against the question; compression toggled), requests over UDP, a zone big enough that the AXFR reply over UDP \
          is truncated, and their combinations; key sets now also: the key configured in upper case, the same key NAME configured twice with \
          different algorithm+secret (both orders); plus a signed NOTIFY and a signed ordinary SOA query (every byte mutant; not judged beyond \
-         'no panic, zone unchanged'). Oracle: effect (zone changed / AXFR answers under AllowSigned) only if vref::tsig accepts the mutated bytes under the \
+         'no panic, zone unchanged'). Part F (the SHAPE of the signed message): requests, replies and second AXFR envelopes signed by the \
+         independent reference signer with Other Data of length {0,1,6,16}, error {0,BADTIME}, original id != header id, fudge {0,300,65535}, key \
+         name plain / upper case / compressed (quick: each dimension alone + 3 combinations; thorough: the full product of 144 shapes x 4 request \
+         kinds): (i) the digest input and MAC hickory's signing functions produce for the shape equal RFC 8945 4.3.3 written out; (ii) the \
+         reference-signed message verifies / takes effect / is accepted by TSigVerifier; (iii) every bit flip, byte substitution, truncation, \
+         extension and count edit of the WHOLE reference-signed request through the server, of the reply and of a second envelope (timers-only \
+         digest) through a fresh TSigVerifier, and of BADTIME-shaped replies through both client transports. Oracle: effect (zone changed / \
+         AXFR answers under AllowSigned) only if vref::tsig accepts the mutated bytes under the \
          configured keys at that clock; no AXFR data under Deny; accepted => reply verifies with the reference and with the client verifier; \
          modified reply accepted by the client only if the reference accepts it; no panic. Non-trivial = distinct (bytes, key set, clock) that \
          still parse as a message with a correctly placed trailing TSIG.",
@@ -1255,10 +1290,55 @@ fn main() {
     ctx.set("client_path_families", json!(paths.len()));
     ctx.par_run_init(paths.len() as u64, 1, |_| Worker::new(), |i, l, w| {
         let (kind, alg, fudge, p) = paths[i as usize];
-        run_client_path(w, kind, alg, fudge, p, l);
+        run_client_path(w, kind, alg, fudge, p, None, l);
+    });
+
+    // ---- part F: the shape of the signed message as a dimension
+    let f_shapes = shapes::shapes(thorough);
+    let f_kinds: Vec<Kind> = if thorough { vec![Kind::UpdAdd, Kind::UpdDelName, Kind::UpdPrereq, Kind::Axfr] } else { vec![Kind::UpdAdd, Kind::Axfr] };
+    let mut f_tasks: Vec<(Kind, Alg, shapes::Shape)> = vec![];
+    for k in &f_kinds {
+        for sh in &f_shapes {
+            f_tasks.push((*k, Alg::Sha256, sh.clone()));
+        }
+    }
+    // the algorithm sub-grid with the BADTIME shape
+    for alg in [Alg::Sha384, Alg::Sha512] {
+        f_tasks.push((Kind::UpdAdd, alg, shapes::Shape { other_len: 6, error: 18, ..shapes::Shape::DEFAULT }));
+    }
+    ctx.set("shape_families", json!(f_tasks.len()));
+    ctx.set("shapes", json!(f_shapes.iter().map(|s| s.label()).collect::<Vec<_>>()));
+    ctx.par_run_init(f_tasks.len() as u64, 1, |_| Worker::new(), |i, l, w| {
+        let (kind, alg, sh) = &f_tasks[i as usize];
+        shapes::run_shape(w, *kind, *alg, sh, l);
+    });
+    // reference-signed replies in non-default shapes through the real client transports
+    let mut t_shapes = vec![shapes::Shape { other_len: 6, error: 18, ..shapes::Shape::DEFAULT }, shapes::Shape { other_len: 16, ..shapes::Shape::DEFAULT }, shapes::Shape { oid_differs: true, ..shapes::Shape::DEFAULT }];
+    if thorough {
+        t_shapes.extend([shapes::Shape { other_len: 1, error: 18, fudge: 65535, ..shapes::Shape::DEFAULT }, shapes::Shape { name_style: 1, ..shapes::Shape::DEFAULT }, shapes::Shape::DEFAULT]);
+    }
+    let mut tp: Vec<(Kind, shapes::Shape, &str)> = vec![];
+    for k in [Kind::UpdAdd, Kind::Axfr] {
+        for sh in &t_shapes {
+            for p in ["multiplexer", "udp-client"] {
+                tp.push((k, sh.clone(), p));
+            }
+        }
+    }
+    ctx.set("shaped_reply_transport_families", json!(tp.len()));
+    ctx.par_run_init(tp.len() as u64, 1, |_| Worker::new(), |i, l, w| {
+        let (kind, sh, p) = &tp[i as usize];
+        run_client_path(w, *kind, Alg::Sha256, 300, p, Some(sh), l);
     });
 
     for class in [
+        "shape:request-digest-equals-rfc8945",
+        "shape:response-digest-equals-rfc8945",
+        "shape:reference-signed-request-verifies",
+        "shape:reference-signed-request-takes-effect",
+        "shape:reply-mutant:rejected",
+        "shape:second-envelope-mutant:rejected",
+        "shape:second-envelope-mutant:accepted-by-both",
         "variant:key=z./tcp",
         "variant:key=k1./udp/big-zone",
         "obs:notify:tsig-valid",
